@@ -417,6 +417,11 @@ let eval (fn : string) (args : string list) : string =
                        a_val = (match k with "b" -> AVBytes (bytes_of_hex v) | "s" -> AVString (bytes_of_hex v) | _ -> AVOther) }
       | _ -> failwith "attr") (split_on ';' attrs) in
     hex_of_bytes (renderAttributes filt al)
+  | "ScanDelimiter", [line; before; minimum] ->
+    (match scanDelimiter (bytes_of_hex line) (n_of_int (int_of_string before)) (z_of_int (int_of_string minimum)) with
+     | Ok None -> "nil"
+     | Ok (Some (((co, cc), len), _)) -> Printf.sprintf "%s%s:%d" (s_of_bool co) (s_of_bool cc) (int_of_z len)
+     | Panic -> "PANIC" | OutOfFuel -> "FUEL")
   | "SpecDoc", [tabs; fnl; ser] -> specdoc_case tabs fnl ser
   | ("ListItemOpen" | "ThematicBreak" | "AtxOpen" | "FenceOpen" | "FenceContinue"), _ -> block_case fn args
   | "RenderTree", [cfg; src; tree] ->
